@@ -108,7 +108,7 @@ CHECKS = {
         kani=[dict(crate="nexrad-decode", files=["c08.rs"], tag="-contract", harnesses=[
             dict(name="c08_get_datetime_contract", what="injected contract on util::get_datetime: all d in 1..=65535, all ms < 86_400_000: timestamp()==(d-1)*86400+t/1000, subsec millis==t%1000; chrono executed symbolically"),
             dict(name="c08_get_datetime_contract_minutes", tier="thorough", what="same contract through Duration::minutes (subsumed by the millisecond harness: the Duration values coincide)"),
-            dict(name="c08_get_datetime_total", what="no panic for all u16 x u32 ms and all u16 x u16 minutes"),
+            dict(name="c08_get_datetime_total", tier="thorough", what="no panic for all u16 x u32 ms and all u16 x u16 minutes, including inputs outside the documented domain (inside it the contract harness already excludes a panic); ~10-13 min"),
         ]),
         dict(crate="nexrad-decode", files=["c08s.rs"], tag="-callsites", contracts=False, harnesses=[
             dict(name="c08_accessor_message_header", what="MessageHeader::date_time calls get_datetime(date, ms(time)) once and returns its result, all field values"),
@@ -118,7 +118,7 @@ CHECKS = {
         ]),
         dict(crate="nexrad-data", files=["c08.rs"], tag="-contract", no_default_features=True, features=["decode"], harnesses=[
             dict(name="c08d_get_datetime_contract", what="the data crate's own copy of get_datetime: same contract, full domain"),
-            dict(name="c08d_get_datetime_total", what="no panic, all u16 x u32"),
+            dict(name="c08d_get_datetime_total", tier="thorough", what="no panic, all u16 x u32 (outside the documented domain too)"),
         ]),
         dict(crate="nexrad-data", files=["c08s.rs"], tag="-callsites", contracts=False, no_default_features=True, features=["decode"], harnesses=[
             dict(name="c08d_volume_header_date_time", what="volume::Header::date_time calls get_datetime(date as u16, ms(time)) through the real 24-byte deserialize"),
@@ -160,7 +160,8 @@ CHECKS = {
             dict(name="c12_flags", what="data-transmission, scan/data and alarm-summary flags == documented bit for all 2^16 words"),
             dict(name="c12_scaled", what="raw/100, build-number rule, VCP magnitude/sign"),
             dict(name="c12_cmd_status", what="clutter mitigation decision status codes"),
-            dict(name="c12_alarm_list", bounded="6 of 14 alarm slots symbolic, the rest zero", what="alarm_messages(): definitions of non-zero codes in message order (get_alarm_message replaced by the contract Verus proves)"),
+            dict(name="c12_alarm_list_3", bounded="3 of 14 alarm slots symbolic (first, second, last), the rest zero", what="alarm_messages(): definitions of non-zero codes in message order (quick-tier size of the next harness)"),
+            dict(name="c12_alarm_list", tier="thorough", bounded="6 of 14 alarm slots symbolic, the rest zero", what="alarm_messages(): definitions of non-zero codes in message order (get_alarm_message replaced by the contract Verus proves)"),
         ])],
         trusted_base=STD_TRUST + KANI_TRUST + [
             "oracle for 'documented' is the field documentation in /repo (ICD text unavailable offline)",
@@ -293,13 +294,13 @@ CHECKS = {
         kani=[dict(crate="nexrad-decode", files=["wire_layout.rs", "drd.rs", "c08.rs"], harnesses=
             prefix_h([n for n in DECODE_STRUCTS if n not in ("RdaStatus", "VolumeDataBlock", "VcpElevation")]) +
             prefix_h(["RdaStatus", "VolumeDataBlock", "VcpElevation"], tier="thorough") + [
-            dict(name="c08_get_datetime_total", what="date conversion total on all u16 x u32 / u16 x u16"),
+            dict(name="c08_get_datetime_total", tier="thorough", what="date conversion total on all u16 x u32 / u16 x u16 (10-13 min: thorough tier; in the quick tier the in-domain part is C08's contract harness)"),
             dict(name="drd_q_unknown_name_0", witness=True, bounded="1 block, name byte 0 symbolic", tier="thorough", what="unknown block name: value or error, never a panic; radial conversion total"),
             dict(name="drd_q_unknown_name_1", witness=True, bounded="1 block, name byte 1 symbolic", tier="thorough", what="same, name byte 1"),
             dict(name="drd_q_unknown_name_2", witness=True, bounded="1 block, name byte 2 symbolic", tier="thorough", what="same, name byte 2"),
             dict(name="drd_q_pointer_any", witness=True, bounded="1 block, pointer any u32, 80-byte message", tier="thorough", what="backwards / overlapping / out-of-range pointer: value or error"),
             dict(name="drd_q_truncated_a", witness=True, bounded="cuts at 0, 31, 32 of a 48-byte message", termination="unwind 5; the unchanged decoder needs <= 3 iterations per loop", what="truncated type-31 message is an error and decoding ends"),
-            dict(name="drd_q_truncated_b", witness=True, bounded="cuts at 35, 36, 39", termination="unwind 5", what="same"),
+            dict(name="drd_q_truncated_b", witness=True, tier="thorough", bounded="cuts at 35, 36, 39", termination="unwind 5", what="same (8 min: thorough tier)"),
             dict(name="drd_q_truncated_c", witness=True, bounded="cuts at 40, 47, 1", termination="unwind 5", what="same"),
             dict(name="drd_q_gates_short", witness=True, bounded="gates in {5, 1840, 65535} x word 8/16, 4 data bytes present", tier="thorough", termination="unwind 5", what="declared gate bytes beyond the input: error, never a hang or a panic"),
             dict(name="drd_total_count_extreme", witness=True, bounded="block count 65535, 40-byte input", what="huge block count with short input is an error"),
